@@ -37,6 +37,10 @@ var heapSample = []metrics.Sample{{Name: "/memory/classes/heap/objects:bytes"}}
 
 var heapGuardTripped bool
 
+// runawayGrace: yields a run may still make after the budget raised the stop flag before it is aborted by force
+// (an interruptible evaluator makes none)
+const runawayGrace = 2000
+
 func heapOver() bool {
 	metrics.Read(heapSample)
 	return heapSample[0].Value.Kind() == metrics.KindUint64 && heapSample[0].Value.Uint64() > heapGuardBytes
@@ -49,6 +53,11 @@ func (y *budgetYielder) Yield() {
 	y.n++
 	if y.budget > 0 && y.n > y.budget && y.onOver != nil {
 		y.onOver()
+		if y.n > y.budget+runawayGrace {
+			// the stop flag was raised runawayGrace yields ago and the evaluator still evaluates: the run cannot be
+			// interrupted through the evaluator; abort it through a Go panic (the runners recover: class gopanic)
+			panic(fmt.Sprintf("harness: run not interruptible: %d further yields after the yield budget raised the stop flag", runawayGrace))
+		}
 	}
 	if y.n == 1 && heapGuardTripped { // first yield of the next run: the previous evaluator is garbage now
 		heapGuardTripped = false
